@@ -122,3 +122,37 @@ func exploreLocks(c *report.Ctx) {
 	}
 	c.Check("R-EXPLORE", "done", "exploration", true, 0, 1, "%d fields", len(tab))
 }
+
+func init() {
+	if os.Getenv("RIECHECK_EXPLORE") == "" {
+		return
+	}
+	register(&Prop{Spec: report.Spec{ID: "XWAIT", Explanation: "exploration", RuleText: "exploration", MinObs: 0}, Run: func(c *report.Ctx) {
+		for _, t := range lockHeldAcrossWaits(c) {
+			fmt.Printf("XWAIT %s | %s | %s\n", t.fn, t.lock, t.op)
+		}
+		c.Check("R-EXPLORE", "done", "exploration", true, 0, 1, "")
+	}})
+}
+
+func init() {
+	if os.Getenv("RIECHECK_EXPLORE") == "" {
+		return
+	}
+	register(&Prop{Spec: report.Spec{ID: "XREACQ", Explanation: "exploration", RuleText: "exploration", MinObs: 0}, Run: func(c *report.Ctx) {
+		for _, f := range repoFuncs(c) {
+			cnt := map[string]int{}
+			for _, o := range an.LockOps(f) {
+				if o.Acquire {
+					cnt[o.Path]++
+				}
+			}
+			for p, n := range cnt {
+				if n > 1 {
+					fmt.Printf("XREACQ %s %s x%d\n", an.FuncName(f), p, n)
+				}
+			}
+		}
+		c.Check("R-EXPLORE", "done", "exploration", true, 0, 1, "")
+	}})
+}
